@@ -99,10 +99,20 @@ def _run_schedule(sid, kind, eof_with_last, cuts):
             return "more objects than encodings"
     if len(objs) != len(st.items):
         return "yielded %d objects for %d encodings" % (len(objs), len(st.items))
-    for o, (_g, t, av, _e) in zip(objs, st.items):
+    for o, (g, t, av, enc_i) in zip(objs, st.items):
         if not same(t, _absval(t, o), av):
             return "object differs from the one-shot decode"
+        # the same item decoded in isolation (fresh decoder, complete bytes): identical object incl. its tags
+        alone, _rest = ber_decoder.decode(enc_i, asn1Spec=st.spec)
+        if _der(o) != _der(alone):
+            return "object differs from the same item decoded in isolation (tags or content)"
     return None
+
+
+def _der(o):
+    from pyasn1.codec.der import encoder as der_encoder
+
+    return der_encoder.encode(o)
 
 
 def sched1(sid, kind, eof_with_last, c1):
